@@ -13,6 +13,9 @@
 ARDUINOJSON_BEGIN_PRIVATE_NAMESPACE
 
 class StringPool {
+#ifdef BBLANCHON_ARDUINOJSON_VERIF
+  friend struct ::ArduinoJsonVerifInspector;
+#endif
  public:
   StringPool() = default;
   StringPool(const StringPool&) = delete;
